@@ -132,7 +132,7 @@ type WireReader struct {
 }
 
 func (r *WireReader) nextSeg() bool {
-	if r.seg < len(r.wire) && r.pos >= len(r.wire[r.seg]) {
+	for r.seg < len(r.wire) && r.pos >= len(r.wire[r.seg]) {
 		r.seg++
 		r.pos = 0
 	}
@@ -140,8 +140,11 @@ func (r *WireReader) nextSeg() bool {
 }
 
 func (r *WireReader) Read(b []byte) (int, error) {
-	if !r.nextSeg() && len(b) > 0 {
-		return 0, io.EOF
+	if !r.nextSeg() {
+		if len(b) > 0 {
+			return 0, io.EOF
+		}
+		return 0, nil
 	}
 	n := copy(b, r.wire[r.seg][r.pos:])
 	r.pos += n
@@ -264,13 +267,15 @@ func (r *WireReader) Skip(n int) error {
 	if n < 0 {
 		return errors.New("encoding.WireReader.Skip: backword skipping is not allowed")
 	}
+	if n > r.Length()-r.Pos() {
+		r.seg = len(r.wire)
+		r.pos = 0
+		return io.EOF
+	}
 	r.pos += n
-	for r.pos > len(r.wire[r.seg]) {
+	for r.seg < len(r.wire) && r.pos > len(r.wire[r.seg]) {
 		r.pos -= len(r.wire[r.seg])
 		r.seg++
-		if r.seg >= len(r.wire) {
-			return io.EOF
-		}
 	}
 	return nil
 }
